@@ -389,7 +389,7 @@ class HistoryGen:
     """A history: list of call descriptions (see c17_worker) + per call the abstract model call."""
     # families aimed at one class of leak each; c17.py makes every history contain some of them (round robin), so that a
     # quick run does not depend on luck to contain each family several times
-    TARGETED = ["c_defaults", "c_dangling_reference", "c_lazy_readers", "c_union_hints", "c_legacy_defaults", "c_redefined_names",
+    TARGETED = ["c_revalidate", "c_defaults", "c_dangling_reference", "c_lazy_readers", "c_union_hints", "c_legacy_defaults", "c_redefined_names",
                 "c_writer_object", "c_piecewise_use", "c_read_union_of_records", "c_read_decimal_focus"]
 
     def __init__(self, rng, ncalls, must=()):
@@ -660,7 +660,10 @@ class HistoryGen:
         if k == "json_reader":
             recs = [self.partial_record(raw, defined, "read") for _ in range(rng.randrange(1, 3))]
             text = "".join(json.dumps({n: to_json(lookup_field(raw, n), v, defined) for n, v in r.items()}) + "\n" for r in recs)
-            self.emit({"api": "json_reader", "schema": arg, "text": text}, "(CJsonRead [])", expect="ok")
+            call = {"api": "json_reader", "schema": arg, "text": text}
+            if rng.random() < 0.5:
+                call["$mutate_result"] = True         # the consumer appends to / sets keys in every container it was handed
+            self.emit(call, "(CJsonRead [])", expect="ok")
         elif k == "json_writer":
             recs = [self.partial_record(raw, defined, "write") for _ in range(rng.randrange(1, 3))]
             self.emit({"api": "json_writer", "schema": arg, "records": recs, "kw": {}}, "CJsonWrite", expect="ok")
@@ -682,10 +685,50 @@ class HistoryGen:
             dg = DataGen(rng, "read", defined)
             if k == "resolve":
                 data = encode(wraw, dg.gen(wraw), defined)
-                self.emit({"api": "schemaless_reader", "schema": wraw, "data": data, "reader_schema": arg}, "(CRead [])", expect="ok")
+                call = {"api": "schemaless_reader", "schema": wraw, "data": data, "reader_schema": arg}
             else:
                 recs = [dg.gen(wraw) for _ in range(rng.randrange(1, 4))]
-                self.emit({"api": "reader", "data": container(wraw, recs, defined, "null"), "reader_schema": arg}, "(CRead [])", expect="ok")
+                call = {"api": "reader", "data": container(wraw, recs, defined, "null"), "reader_schema": arg}
+            if rng.random() < 0.5:
+                call["$mutate_result"] = True
+            self.emit(call, "(CRead [])", expect="ok")
+
+    # --- the same (schema object, datum object) pair again, after the caller changed the datum / with other options ----
+    def c_revalidate(self):
+        rng = self.rng
+        raw, defined = self.new_schema(allow_decimal=False)
+        out = self.fresh_slot("P")
+        self.emit({"api": "parse_schema", "schema": raw, "$out": out}, "CParse", expect="ok")
+        self.parsed.append((out, raw, defined, False))
+        arg = {"$slot": out}
+        d = DataGen(rng, "write", defined).gen(raw)
+        if rng.random() < 0.4:
+            d["extra_key"] = 1                       # valid, but not under strict=True
+
+        def use(first=False):
+            k = rng.choice(["validate", "validate", "validate_many", "writer", "json_writer", "schemaless_writer"])
+            if k == "validate":
+                kw = {"raise_errors": rng.random() < 0.5}
+                if not first and rng.random() < 0.5:
+                    kw["strict"] = True
+                self.emit({"api": k, "schema": arg, "datum": d, "kw": kw}, "CValidate", expect="any", shared_data=True)
+            elif k == "validate_many":
+                self.emit({"api": k, "schema": arg, "records": [d], "kw": {"raise_errors": rng.random() < 0.5}}, "CValidate", expect="any", shared_data=True)
+            elif k == "writer":
+                self.emit({"api": k, "schema": arg, "records": [d], "kw": {"validator": True}}, "CWrite", expect="any", shared_data=True)
+            elif k == "json_writer":
+                self.emit({"api": k, "schema": arg, "records": [d], "kw": {"validator": True}}, "CJsonWrite", expect="any", shared_data=True)
+            else:
+                self.emit({"api": k, "schema": arg, "record": d, "kw": {}}, "CWrite", expect="any", shared_data=True)
+        self.emit({"api": "validate", "schema": arg, "datum": d, "kw": {"raise_errors": False}}, "CValidate", expect="ok", shared_data=True)
+        for _ in range(rng.randrange(1, 4)):
+            if rng.random() < 0.7:
+                f = rng.choice(raw["fields"])["name"]
+                if rng.random() < 0.6:
+                    self.emit({"api": "mutate", "target": d, "action": "set", "key": f, "value": {"definitely": ["not", "conforming"]}}, "")
+                else:
+                    self.emit({"api": "mutate", "target": d, "action": "delete", "key": f}, "")
+            use()
 
     # --- piecewise-parsed schemas in use -----------------------------------------------------------------------
     def c_piecewise_use(self):
@@ -1172,7 +1215,7 @@ class HistoryGen:
 
     KINDS = [("c_parse", 5), ("c_schemaless_writer", 3), ("c_schemaless_reader", 3), ("c_read_truncated", 1), ("c_read_union_of_records", 2),
              ("c_defaults", 5), ("c_dangling_reference", 2), ("c_lazy_readers", 1),
-             ("c_union_hints", 2), ("c_legacy_defaults", 2), ("c_redefined_names", 4), ("c_writer_object", 1), ("c_piecewise_use", 2),
+             ("c_union_hints", 2), ("c_legacy_defaults", 2), ("c_redefined_names", 4), ("c_writer_object", 1), ("c_piecewise_use", 2), ("c_revalidate", 1),
              ("c_read_decimal_focus", 3), ("c_writer", 3), ("c_reader", 2), ("c_reader_truncated", 1), ("c_validate", 3),
              ("c_canonical", 1), ("c_fingerprint", 1), ("c_json_writer", 2), ("c_json_reader", 1), ("c_generate", 1), ("c_load", 2)]
 
@@ -1185,7 +1228,7 @@ class HistoryGen:
             plan.insert(rng.randrange(len(plan) // 2 + 1), m)       # early enough to be followed by other calls
         done_must = 0
         for kname in plan:
-            if sum(1 for c in self.calls if c["api"] != "new_dict") >= self.n and done_must >= len(self.must):
+            if sum(1 for c in self.calls if c["api"] not in ("new_dict", "mutate")) >= self.n and done_must >= len(self.must):
                 break
             if kname in self.must and done_must < len(self.must):
                 done_must += 1
